@@ -26,7 +26,7 @@ ASSUMPTIONS = ["capacities non-negative ints, costs ints, no negative-cost cycle
                "parallel arcs are distinct arcs with their own cost (the reference model); anti-parallel arcs likewise",
                "int() on symbolic supplies is modelled as truncation (solvor.network_simplex.int shadowed)"]
 STUBS = ["solvor.network_simplex.int := symbolic truncation"]
-GOALS = {"quick": ["mcf.optimal", "mcf.infeasible", "ns.optimal", "ns.infeasible", "assign.optimal"], "thorough": ["mcf.optimal", "ns.optimal"]}
+GOALS = {"quick": ["ns.max_iter", "mcf.optimal", "mcf.infeasible", "ns.optimal", "ns.infeasible", "assign.optimal"], "thorough": ["mcf.optimal", "ns.optimal"]}
 OPTS = {"quick": {"path_wall": 20.0, "qto": 10000}, "thorough": {"path_wall": 40.0, "qto": 20000}}
 
 
@@ -111,7 +111,7 @@ def h_mcf(s, n, arcs, source, sink, mode, fixed_costs=None, fixed_caps=None, fix
     s.observe("objective", res.objective)
 
 
-def h_ns(s, n, arcs, mode, fixed_costs=None, fixed_caps=None, fixed_supplies=None, supply_shape=None, neg_ok=False):
+def h_ns(s, n, arcs, mode, fixed_costs=None, fixed_caps=None, fixed_supplies=None, supply_shape=None, neg_ok=False, sym_max_iter=False):
     """supply_shape: list of (node, sign) pairs: symbolic amounts d_i >= 0 leave/enter; the last node absorbs the remainder to keep balance."""
     Status = importlib.import_module("solvor.types").Status
     mod = importlib.import_module("solvor.network_simplex")
@@ -130,9 +130,19 @@ def h_ns(s, n, arcs, mode, fixed_costs=None, fixed_caps=None, fixed_supplies=Non
         costs = [s.int("cost%d" % k, None if neg_ok else 0, None) for k in range(m)]
     s.stub(mod, int=sym_int)
     inp = [(u, v, caps[k], costs[k]) for k, (u, v) in enumerate(arcs)]
-    res = mod.network_simplex(n, inp, list(supplies))
+    kw = {}
+    if sym_max_iter:
+        max_iter = s.int("max_iter", 0, 12)  # pivot budget: a run that is cut short may say MAX_ITER, never INFEASIBLE or a non-minimal OPTIMAL
+        kw["max_iter"] = max_iter
+    res = mod.network_simplex(n, inp, list(supplies), **kw)
     g, feas = feasible_flow(s, n, arcs, caps, supplies, "g")
     s.observe("status", int(res.status))
+    if res.status == Status.MAX_ITER:
+        s.check(sym_max_iter and res.solution is None, "ns.max_iter_status_only_with_a_budget_and_without_solution")
+        if sym_max_iter:
+            s.check(res.iterations >= max_iter, "ns.max_iter_only_when_budget_exhausted")
+        s.goal("ns.max_iter")
+        return
     if res.status == Status.INFEASIBLE:
         s.check(NOT(feas), "ns.infeasible_only_if_no_feasible_flow")
         s.goal("ns.infeasible")
@@ -237,6 +247,12 @@ def items(tier, rng):
                 sup[si] -= dem
                 out.append({"name": "ns_cost_" + nm, "harness": "h_ns", "split": 6,
                             "params": {"n": n, "arcs": arcs, "mode": "cost", "fixed_caps": caps, "fixed_supplies": sup, "neg_ok": dag}})
+    # pivot budget (max_iter) symbolic on a few topologies
+    for nm in list(TOPO)[: (4 if q else len(TOPO))]:
+        (n, arcs, so, si, dag) = TOPO[nm]
+        out.append({"name": "ns_budget_" + nm, "harness": "h_ns", "max_paths": 300 if q else 3000, "spread": rng.randrange(1 << 30),
+                    "params": {"n": n, "arcs": arcs, "mode": "cap", "fixed_costs": [rng.randint(0, 4) for _ in arcs], "supply_shape": [(so, 1)],
+                               "sym_max_iter": True}})
     # multi-source network simplex
     out.append({"name": "ns_multi4", "harness": "h_ns", "split": 6,
                 "params": {"n": 4, "arcs": [(0, 2), (1, 2), (2, 3), (0, 3), (1, 3)], "mode": "cap", "fixed_costs": [1, 2, 1, 4, 3],
